@@ -143,6 +143,7 @@ class Incarnation:
         self.vf_objs: dict = {}  # op id -> list as returned by lcm / loaded
         self.vf_np_objs: dict = {}
         self.store: dict = dict(plan.get("store") or {})
+        self.prefetched: dict = {}  # op id -> params object built right after the previous call of a tight loop
         self.kept: list = []  # (op id, object, digest fn) results kept alive to re-digest later
         self.spy_records: list = []
         self.spy_mode = plan.get("spy", "off")
@@ -299,11 +300,10 @@ class Incarnation:
         return self._leaf(values, leaf, arr_dtype)
 
     def get_params_obj(self, op):
+        if op["id"] in self.prefetched:
+            return self.prefetched.pop(op["id"])
         if op.get("transient") and not op.get("pobj"):
-            # built for this call only and dropped right after it: its memory (and its id()) is
-            # handed to the next object the caller builds
-            vals = self.plan["params"][op["params"]]["values"]
-            return self._build_params(vals, op.get("leaf", "float"), self.plan["params"][op["params"]].get("shocks_dtype", "float64"))
+            return self._make_transient_params(op["params"], op.get("leaf", "float"), op["transient"])
         key = op.get("pobj") or f"auto:{op['params']}:{op.get('leaf', 'float')}"
         if key not in self.params_objs:
             vals = self.plan["params"][op["params"]]["values"]
@@ -313,6 +313,37 @@ class Incarnation:
             self.params_refs[key] = {k: v for k, v in obj.items() if isinstance(v, dict)}
         return self.params_objs[key]
 
+    def _make_transient_params(self, pid, leaf, mode):
+        if True:
+            # built for one call only and dropped right after it: its memory (and its id()) is
+            # handed to the next object the caller builds
+            vals = self.plan["params"][pid]["values"]
+            sdt = self.plan["params"][pid].get("shocks_dtype", "float64")
+            if mode == "template":
+                # the criterion-function idiom: copy.deepcopy(base) and replace what this evaluation
+                # changes by freshly created numbers - unchanged leaves are the very same objects in
+                # every evaluation, changed ones live only for the call
+                import copy
+
+                base_pid = sorted(p for p, v in self.plan["params"].items() if v["model"] == self.plan["params"][pid]["model"])[0]
+                bvals = self.plan["params"][base_pid]["values"]
+                bkey = ("template", base_pid, leaf)
+                if bkey not in self.params_objs:
+                    self.params_objs[bkey] = self._build_params(bvals, leaf, self.plan["params"][base_pid].get("shocks_dtype", "float64"))
+                obj = copy.deepcopy(self.params_objs[bkey])
+
+                def patch(o, v, bv):
+                    for k in v:
+                        if isinstance(v[k], dict):
+                            patch(o[k], v[k], bv[k])
+                        elif v[k] != bv[k]:
+                            x = self._leaf(v[k], leaf, sdt)
+                            o[k] = (x + 0.0) if type(x) is float else x  # a new float object, as arithmetic yields
+                    return o
+
+                return patch(obj, vals, bvals)
+            return self._build_params(vals, leaf, sdt)
+
     def resolve_batch(self, bid, form):
         b = self.plan["batches"][bid]
         recipe = self.plan["models"][b["model"]]
@@ -320,10 +351,10 @@ class Incarnation:
         out = {}
         agents = catalogue.expand_agents(recipe, b["agents"])
         for nm in b["key_order"]:
-            if nm == "a":
-                grid = np.asarray(model.states["a"].to_jax())
-                arr = np.array([grid[ag["a"][1]] if ag["a"][0] == "n" else ag["a"][1] for ag in agents], dtype=np.float64)
-                if b.get("a_dtype", "float64") != "float64":
+            if nm in ("a", "b"):
+                grid = np.asarray(model.states[nm].to_jax())
+                arr = np.array([grid[ag[nm][1]] if ag[nm][0] == "n" else ag[nm][1] for ag in agents], dtype=np.float64)
+                if nm == "a" and b.get("a_dtype", "float64") != "float64":
                     arr = arr.astype(np.dtype(b["a_dtype"]))
             else:
                 arr = np.array([ag[nm] for ag in agents], dtype=np.dtype(b.get("int_dtype", "int64")))
@@ -473,7 +504,30 @@ class Incarnation:
         rec["digest"] = digest_solution(arrs)
         rec["result_type"] = type(res).__name__
         self.kept.append((op["id"], res, lambda r: digest_solution([np.asarray(a) for a in r])))
+        del s_before, s_after  # the snapshots hold the scalar leaves themselves
+        box = [params]
+        params = None  # the caller's loop variable is rebound: the dict of this evaluation is gone
+        self._tight_loop_next(op, box)
         return arrs
+
+    def _tight_loop_next(self, op, box):
+        """Tight caller loop: the parameters of this evaluation are dropped and those of the next one
+        are built immediately (``for theta in grid: p = deepcopy(base); p[...] = theta; f(p)``), so
+        that freed memory - and with it id() values - is handed straight to the next object."""
+        pf = op.get("prefetch")
+        if pf:
+            # CPython keeps up to 100 dead float objects for re-use and hands out the most recently
+            # freed one first; whether the number the caller creates next lands on the address of the
+            # number it just dropped depends on that list, i.e. on unrelated earlier work.  The simulator
+            # picks the legal state "list empty" (by holding 200 live floats for a moment), in which the
+            # address is re-used for certain - the state a short script or an idle loop is in.
+            hold = [i + 0.5 for i in range(200)]
+            box.clear()
+            self.prefetched[pf["for"]] = self._make_transient_params(pf["params"], pf["leaf"], "template")
+            del hold
+        else:
+            box.clear()
+        return None
 
     def _vf_for(self, op):
         src = op.get("vsrc")
@@ -516,6 +570,10 @@ class Incarnation:
             kwargs["seed"] = op["seed"]
         if op.get("targets"):
             kwargs["additional_targets"] = list(op["targets"])
+        if os.environ.get("DSIM_DEBUG_IDS"):
+            lv = self.jax.tree_util.tree_leaves(params)
+            print("DBGIDS", op["id"], op["params"], op.get("transient"), op["handle"], [id(x) % 100000 for x in lv], file=sys.stderr)
+            del lv
         s_before = (snap(params), snap(batch), snap(vf), snap_model(model))
         try:
             df = h["f"](params, **kwargs)
@@ -529,6 +587,10 @@ class Incarnation:
         rec["digest"] = digest_frame(fd)
         rec["batch_resolved"] = {k: np.asarray(v) for k, v in batch.items()}
         self.kept.append((op["id"], df, lambda d: digest_frame(frame_to_dict(d))))
+        del s_before, s_after  # the snapshots hold the scalar leaves themselves
+        box = [params]
+        params = None  # the caller's loop variable is rebound: the dict of this evaluation is gone
+        self._tight_loop_next(op, box)
         return fd
 
     # -- durable store
